@@ -263,6 +263,15 @@ GMatchLoop(x, src, acc) ==
 
 StrGMatch(s, p) == GMatchLoop(Ctx(s, p, FALSE), 1, <<>>)
 
+(* the closure returned by gmatch called k times by hand: it carries its own *)
+(* position (upvalue 3), so call i returns the i-th match and, once the      *)
+(* subject is exhausted, every further call returns nothing.                 *)
+(* <<"v", values>> per successful call, <<"end">> afterwards                 *)
+GMatchCalls(s, p, k) ==
+    LET g == StrGMatch(s, p) IN
+    IF g[1] = "err" THEN g
+    ELSE <<"c", [i \in 1..k |-> IF i <= Len(g[2]) THEN <<"v", g[2][i]>> ELSE <<"end">>]>>
+
 (* ---- gsub --------------------------------------------------------------- *)
 RECURSIVE Digits(_)
 Digits(n) == IF n < 10 THEN <<48 + n>> ELSE Append(Digits(n \div 10), 48 + (n % 10))
@@ -293,8 +302,9 @@ AddValue(x, repl, caps, ms, me) ==
             IF ret[1] = "nil" \/ (ret[1] = "b" /\ ret[2] = FALSE) THEN [k |-> "ok", b |-> orig, call |-> call]
             ELSE IF ret[1] \in {"s", "n"} THEN [k |-> "ok", b |-> ValBytes(ret), call |-> call]
             ELSE [k |-> "err", m |-> "invalid replacement value"]
-    IN CASE repl[1] = "s" ->
-              (LET r == AddS(x, repl[2], caps, ms, me, 1, <<>>) IN
+    IN CASE repl[1] \in {"s", "n"} ->       \* LUA_TNUMBER: add_s on the number's text
+              (LET r == AddS(x, IF repl[1] = "n" THEN IntToBytes(repl[2]) ELSE repl[2],
+                             caps, ms, me, 1, <<>>) IN
                IF r[1] = "err" THEN [k |-> "err", m |-> r[2]]
                ELSE [k |-> "ok", b |-> r[2], call |-> <<>>])
          [] repl[1] = "f" ->
